@@ -38,6 +38,8 @@ def classify_e2e(case):
     obs = case.get("_obs", {})
     route = case.get("route", "?")
     own = case.get("own_of") or ""
+    if obs.get("tag_a") == obs.get("tag_b"):
+        return "e2e-two-instances-emit-the-same-via-element"
     looped = route in ("AA", "ABA") or own != ""
     if looped and obs.get("status") != 400:
         kind = "loop-not-refused"
@@ -61,17 +63,18 @@ def run(ctx):
     meta = u.run_harness(ctx, "c18", ob_failed)
     model_bad, prop_bad, res = ([], [], {})
     if meta:
-        model_bad, prop_bad, res = u.eval_shards(ctx, meta, ob_failed, {"vcases": "vcases.jsonl", "ecases": "ecases.jsonl"},
+        model_bad, prop_bad, res = u.eval_shards(ctx, meta, ob_failed, {"vcases": "vcases.jsonl", "ecases": "ecases.jsonl", "ucases": "ucases.jsonl"},
                                                    idents=("M", "P", "B"))
 
     def replay_of(kc):
         kind, case = kc
         d = {k: v for k, v in case.items() if k != "_obs"}
-        d["kind"] = "modifier" if kind == "vcases" else "e2e"
+        d["kind"] = {"vcases": "modifier", "ecases": "e2e", "ucases": "stacks"}[kind]
         d["observed"] = case.get("_obs")
         return d
 
-    for kind, label, classify in (("vcases", "modifier", classify_modifier), ("ecases", "e2e", classify_e2e)):
+    for kind, label, classify in (("vcases", "modifier", classify_modifier), ("ecases", "e2e", classify_e2e),
+                                  ("ucases", "stacks", lambda c: "stacks-instance-tags-not-unique")):
         pb = [kc for kc in prop_bad if kc[0] == kind]
         mb = [kc for kc in model_bad if kc[0] == kind]
         groups = {}
@@ -93,7 +96,7 @@ def run(ctx):
         ob_failed.append("end-to-end exchanges failed at transport level: %s" % meta["e2e_errors"][:3])
     if meta.get("origin_parse_errors"):
         ob_failed.append("scripted origin could not parse what it received: %s" % meta["origin_parse_errors"][:3])
-    if ob_failed and not ctx.violations and not ctx.known_hits:
+    if ob_failed and not ctx.violations:
         ctx.violation("obligation-unchecked", dict(unchecked=ob_failed), False, ob_failed[0][:300])
     elif ob_failed:
         ctx.notes.append({"unchecked_obligations": ob_failed})
@@ -104,7 +107,7 @@ def run(ctx):
         if shard.startswith("vcases") and isinstance(r, dict) and r.get("B"):
             for i, v in enumerate(ctx.parse_nlist(r["B"])[:3]):
                 branches[i] += v
-    evals = int(meta.get("modifier_cases", 0)) + int(meta.get("e2e_cases", 0))
+    evals = int(meta.get("modifier_cases", 0)) + int(meta.get("e2e_cases", 0)) + int(meta.get("stack_tags_observed", 0))
     nontriv = branches[1] + branches[2] + int(meta.get("e2e_cases", 0))
     ob_names, ob_done = u.table_obligations("Ob18.v", info)
     coverage = {
@@ -126,8 +129,9 @@ def run(ctx):
         "distinct_nontrivial": nontriv,
         "rule": "modifier alone: corpus + every protocol version 0.0..9.9 (exhaustive over what ParseHTTPVersion yields) with and without a chain "
                 "+ generated chains (0-4 field lines x 0-5 elements, comments incl. commas, same-name other-instance tags, tags differing in the "
-                "last character, own element at any position, tag text embedded in comments / longer names); end to end: routes A, A->A, A->B, "
-                "A->B->A through real forwarder instances (distinct and identical names), HTTP/1.0 and 1.1 clients, client supplied chains; "
+                "last character, own element at any position, tag text embedded in comments / longer names); instance tags of repeatedly constructed stacks; end to end: routes A, A->A, A->B, "
+                "A->B->A, A->scripted upstream proxy, plain and CONNECT, through real forwarder instances (distinct and identical names; A wired "
+                "with Transport.GetProxyConnectHeader like the binary), HTTP/1.0 and 1.1 clients, client supplied chains, Connection-nominated Via; "
                 "non-trivial = modifier cases with a received chain (forwarded or refused) + all end-to-end cases",
         "traces_validated_against_impl": evals,
         "model_mismatches": len(model_bad),
@@ -136,7 +140,7 @@ def run(ctx):
             "model_branches[no_chain,chain_forwarded,refused]": branches,
             **{k: meta.get(k) for k in ("modifier_refused", "modifier_forwarded", "modifier_own_element_placed",
                                         "modifier_tag_text_embedded", "via_field_lines_hist", "proto_versions_exhaustive",
-                                        "e2e_routes", "e2e_status", "e2e_origin_contacts_total")}},
+                                        "e2e_routes", "e2e_status", "e2e_origin_contacts_total", "stack_tags_observed")}},
         "samples": meta.get("samples"),
     }
     ctx.finish("proof", coverage, [
